@@ -32,6 +32,31 @@ claim('C03', 'proof',
       'The numeric "to within rounding" clause is not decided.',
       TRUST + ' numpy.poly1d is modelled as a formal polynomial.', 'DESIGN.md section 3 C03')
 
+claim('C16', 'other',
+      'typestate/effect analysis on per-method CFGs (must-pass-through invalidation, keyed-cache guards with direction, '
+      'eq/hash field sets, package-wide who-may-write scan)',
+      'Decides for ALL mutation/query histories (all code paths, not sampled sequences) the structural discipline that '
+      'makes the property hold: every statement of Path that can mutate the segment store reaches every normal exit only '
+      'through `self._length = None` and a refresh of _start/_end (helper methods summarised by must-assign sets); reads of the '
+      'store after a shrinking mutation are emptiness-guarded; every cached return of QuadraticBezier/CubicBezier/Arc/Path is '
+      'control-dependent on its key and on tolerance guards whose direction is derived from segment_length; cache fills write all '
+      'key fields; caches shared with a reversed copy are re-keyed; no foreign writer of the private fields exists; '
+      '__hash__ fields are a subset of __eq__ fields (one known finding: Path._closed). Numeric equality of recomputed values '
+      'is not re-derived (determinism trusted).',
+      TRUST + ' MutableSequence mixins reduce to insert/__setitem__/__delitem__ (collections.abc contract). Implicit exceptions '
+      '(e.g. IndexError) are not CFG edges; R16.2 covers the one place where they matter.', 'DESIGN.md section 3 C16')
+
+claim('C19', 'other',
+      'abstract interpretation over a polynomial normal form per degree (identities) + AST/CFG provenance rules (root filters, index domains) '
+      "+ exhaustive label exploration of rational_limit's case table",
+      'Identity clauses are decided for all control points per degree (0..5 quick, 0..8 thorough): n_choose_k, bernstein, bezier_point, '
+      'bezier2polynomial (all output forms), polynomial2bezier inverse, split_bezier and halve_bezier under the documented parameter maps. '
+      "For the root helpers only necessary conditions are decided: polyroots' real filter/condition filter/polyroots01 arguments, "
+      'the index-domain rule (an index selects from the very collection it enumerated, not re-bound in between), and the three-case '
+      "L'Hopital table of rational_limit with every division guarded. What numpy.roots returns, isclose tolerances and the float zero "
+      'tests of rational_limit are not decided.',
+      TRUST, 'DESIGN.md section 3 C19')
+
 ALL = ['C%02d' % i for i in range(1, 21)]
 for pid in ALL:
     if pid not in CLAIMED and pid not in NOT_APPLICABLE:
